@@ -119,8 +119,9 @@ StatusOfOp(side, op) ==
     [] op = "Stage" -> IF side = "alpha" THEN "staging-alpha" ELSE "staging-beta"
     [] op = "Supply" -> IF side = "alpha" THEN "staging-beta" ELSE "staging-alpha"   \* alpha supplies what beta stages
     [] op = "Transition" -> "transitioning"
+    [] op = "Open" -> "forwarding-connections"      \* forwarding endpoints (FwdLifecycle.tla): accept / dial
     [] OTHER -> "none"
-PinnedOps == {"Poll", "Scan", "Stage", "Supply", "Transition"}
+PinnedOps == {"Poll", "Scan", "Stage", "Supply", "Transition", "Open"}
 
 \* ---------------------------------------------------------------- monitor state
 NoRoots == [set |-> FALSE, alpha |-> Nil, beta |-> Nil]
